@@ -198,6 +198,9 @@ func WorkerMain(d Driver, a *Args) int {
 		d.RunItem(idx, ctx)
 		ctx.Inc("items", 1)
 	}
+	if c, ok := d.(interface{ Cleanup() }); ok {
+		c.Cleanup()
+	}
 	if pf != nil {
 		pf.WriteAt([]byte(fmt.Sprintf("%-12s", "done")), 0) //nolint:errcheck
 		pf.Close()                                          //nolint:errcheck
@@ -392,6 +395,11 @@ func ParentMain(d Driver, a *Args) int {
 				}
 			}
 		}
+		hkey := fmt.Sprintf("hash:%016x", sc.Hash())
+		if seen[hkey] {
+			continue // minimised to a scenario already reported
+		}
+		seen[hkey] = true
 		nViol++
 		_ = os.MkdirAll(a.Replays, 0o755)
 		path := filepath.Join(a.Replays, fmt.Sprintf("%s-%d-%016x.json", a.Prop, a.Seed, sc.Hash()))
